@@ -5,6 +5,11 @@ import PdbVerif.Gen.Consts
 import PdbVerif.Gen.Str
 import PdbVerif.Model.Parse
 import PdbVerif.Spec.C01
+import PdbVerif.Proofs.Str
+import PdbVerif.Proofs.Parse
+import PdbVerif.Proofs.ParseRows
+
+set_option linter.unusedVariables false
 
 namespace Props.C01
 open Py
@@ -27,5 +32,223 @@ theorem blank_defaults_documented : Gen.blank_defaults =
 
 /-- only `ATOM` records produce rows; `ENDMDL` separates models -/
 theorem record_prefixes : Gen.atom_prefix = "ATOM".toList ∧ Gen.endmdl_prefix = "ENDMDL".toList := by decide
+
+/-! ### 1. the 80-column guard -/
+
+/-- a record of at most 80 columns is read as if padded with blanks to exactly 80 -/
+theorem linelength_spec (t : Str) (h : t.length ≤ 80) :
+    Gen._format_pdb_linelength t = .ok (Spec.pad80 t) ∧ (Spec.pad80 t).length = 80 :=
+  ⟨Proofs.Parse.linelength_ok t h, Proofs.Parse.pad80_length t h⟩
+
+/-- a record longer than 80 columns is refused -/
+theorem linelength_too_long_raises (t : Str) (h : t.length > 80) :
+    Gen._format_pdb_linelength t = .error .valueError :=
+  Proofs.Parse.linelength_err t h
+
+example : ("ATOM      1  CA  ALA A   1".toList).length ≤ 80 := by decide
+example : (List.replicate 81 'x').length > 80 := by decide
+
+/-! ### 2. every slice of the source's table is the wwPDB column range of the statement -/
+
+/-- For every entry `(name, a, b)` of the source's table, `line[a:b].strip()` is the content of the
+    1-based inclusive columns `a+1 … b`, and these are the columns printed in the property
+    (`delimiter_is_wwpdb`).  True for every line (80 columns after padding in particular). -/
+theorem slice_is_columns (l : Str) (name : String) (a b : Nat) (h : (name, a, b) ∈ Gen.delimiter) :
+    Py.strip (Py.slice l (a : Int) (b : Int)) = Spec.cols l (a + 1) b ∧ (name, a + 1, b) ∈ Spec.wwpdbColumns := by
+  refine ⟨Proofs.Parse.strip_slice_cols l a b, ?_⟩
+  rw [delimiter_is_wwpdb] at h
+  simp only [Spec.wwpdbHalfOpen, Spec.wwpdbColumns, List.map_cons, List.map_nil, List.mem_cons,
+    Prod.mk.injEq, List.not_mem_nil, or_false] at h
+  rcases h with h | h | h | h | h | h | h | h | h | h | h | h | h <;>
+    (obtain ⟨rfl, rfl, rfl⟩ := h; decide)
+
+example : ("x", 30, 38) ∈ Gen.delimiter := by decide
+
+/-! ### 3. the two fallbacks -/
+
+/-- blank chain: the chain is the content of the segID columns 73–76, and a blank segID is an error -/
+theorem get_chainID_spec (l : Str) :
+    Gen._get_chainID l = if Spec.cols l 73 76 = [] then .error .valueError else .ok (Spec.cols l 73 76) :=
+  Proofs.Parse.get_chainID_eq l
+
+/-- blank element: the element is the documented function of the atom-name columns 13–16 -/
+theorem get_element_spec (l : Str) (h : l.length = 80) :
+    Gen._get_element l = .ok (Spec.elementOfName (Spec.rawCols l 13 16)) :=
+  Proofs.Parse.get_element_eq l (by omega)
+
+/-- The element depends on columns 13–16 only. -/
+theorem get_element_only_name_columns (l l' : Str) (h : l.length = 80) (h' : l'.length = 80)
+    (hn : Spec.rawCols l 13 16 = Spec.rawCols l' 13 16) : Gen._get_element l = Gen._get_element l' := by
+  rw [get_element_spec l h, get_element_spec l' h', hn]
+
+/-- The four documented situations, and in each the result is free of blanks (no padding):
+    ` CA `-like names (column 13 blank) and names with a leading digit give column 14; a four-character
+    hydrogen `H???` gives `H`; otherwise the first two columns with a blank second column dropped. -/
+theorem element_unpadded (c1 c2 c3 c4 : Char) :
+    (isSpace c1 = true → Spec.elementOfName [c1, c2, c3, c4] = [c2]) ∧
+    (isSpace c1 = false → Spec.isDigitChar c1 = true → Spec.elementOfName [c1, c2, c3, c4] = [c2]) ∧
+    (c1 = 'H' → isSpace c4 = false → Spec.elementOfName [c1, c2, c3, c4] = ['H']) ∧
+    (isSpace c1 = false → Spec.isDigitChar c1 = false → ¬ (c1 = 'H' ∧ isSpace c4 = false) →
+        Spec.elementOfName [c1, c2, c3, c4] = if isSpace c2 then [c1] else [c1, c2]) ∧
+    ((isSpace c1 = true ∨ Spec.isDigitChar c1 = true → isSpace c2 = false) →
+        ∀ c ∈ Spec.elementOfName [c1, c2, c3, c4], isSpace c = false) := by
+  unfold Spec.elementOfName
+  refine ⟨?_, ?_, ?_, ?_, ?_⟩
+  · intro h; simp [h]
+  · intro h d; simp [h, d]
+  · intro h s; subst h
+    have : isSpace 'H' = false := by decide
+    have d : Spec.isDigitChar 'H' = false := by decide
+    simp [this, d, s]
+  · intro h d hh
+    have hh' : ¬ (c1 = 'H' ∧ ¬ isSpace c4 = true) := by simpa using hh
+    simp only [h, d, hh', Bool.false_eq_true, if_false, strip_pair_of_not_space c1 c2 h]
+  · intro h2 c hc
+    dsimp only at hc
+    split_ifs at hc with s1 d hh
+    · simp only [List.mem_singleton] at hc; subst hc; exact h2 (Or.inl s1)
+    · simp only [List.mem_singleton] at hc; subst hc; exact h2 (Or.inr d)
+    · simp only [List.mem_singleton] at hc; subst hc; decide
+    · have s1' : isSpace c1 = false := by simpa using s1
+      rw [strip_pair_of_not_space c1 c2 s1'] at hc
+      split_ifs at hc with s2
+      · simp only [List.mem_singleton] at hc; subst hc; exact s1'
+      · simp only [List.mem_cons, List.not_mem_nil, or_false] at hc
+        rcases hc with hc | hc <;> subst hc <;> simp_all
+
+example : Spec.elementOfName " CA ".toList = "C".toList ∧ Spec.elementOfName "1HG ".toList = "H".toList ∧
+    Spec.elementOfName "HE21".toList = "H".toList ∧ Spec.elementOfName "FE  ".toList = "FE".toList ∧
+    Spec.elementOfName "C   ".toList = "C".toList := by decide
+
+/-! ### 4. one record -/
+
+/-- The central statement: for EVERY string `raw` and model number `n` the record loop's row (or error)
+    is the property's: each field = its wwPDB columns (of the text up to the end of the line, padded to 80)
+    with surrounding blanks removed and numbers converted, the documented defaults for blank occupancy,
+    B-factor, chain and element; more than 80 columns, a non-numeric numeric field, or blank chain with
+    blank segID are errors. -/
+theorem parse_fields (raw : Str) (n : Int) : Model.parseAtomLine raw n = Spec.parseRecord raw n :=
+  Proofs.Parse.parseAtomLine_eq raw n
+
+example : Model.parseAtomLine "ATOM  99999  CA BALA A-999C     11.104   6.134  -6.504  1.00  0.00           C  \n".toList 2 =
+    .ok [.int 99999, .text "CA".toList, .text "B".toList, .text "ALA".toList, .text "A".toList, .int (-999),
+         .text "C".toList, .real (mkRat 11104 1000), .real (mkRat 6134 1000), .real (mkRat (-6504) 1000),
+         .real 1, .real 0, .text "C".toList, .int 2] := by decide +kernel
+
+/-! ### 5. the record loop -/
+
+/-- One row per ATOM record, in input order, nothing from any other record, the model number being the
+    number of ENDMDL records before it: the code's loop is the property's `Spec.parse` on EVERY list of lines
+    (results and errors alike). -/
+theorem parse_rows (ls : List Str) : Model.parse ls = Spec.parse ls :=
+  Proofs.ParseRows.parse_eq parse_fields ls
+
+/-- `Spec.parse` spelled out: the rows are the readings of the ATOM records, each with its model number … -/
+theorem parse_rows_explicit (ls : List Str) :
+    Model.parse ls = (Proofs.ParseRows.atomsFrom ls 0).mapM (fun p => Spec.parseRecord p.1 p.2) := by
+  rw [parse_rows]; exact Proofs.ParseRows.parseFrom_eq_mapM ls 0
+
+/-- … the records read are exactly the ATOM records, in input order … -/
+theorem atom_records_in_order (ls : List Str) :
+    (Proofs.ParseRows.atomsFrom ls 0).map (·.1) = ls.filter Spec.isAtomRecord :=
+  Proofs.ParseRows.atomsFrom_map_fst ls 0
+
+/-- … and the model number of an ATOM record is the number of ENDMDL records before it. -/
+theorem model_number (pre post : List Str) (l : Str) (h : Spec.isAtomRecord l = true) :
+    Proofs.ParseRows.atomsFrom (pre ++ l :: post) 0 =
+      Proofs.ParseRows.atomsFrom pre 0 ++ (l, ((pre.countP Spec.isEndmdl : Nat) : Int)) ::
+        Proofs.ParseRows.atomsFrom post ((pre.countP Spec.isEndmdl : Nat) : Int) := by
+  have := Proofs.ParseRows.atomsFrom_model pre post 0 h
+  simpa using this
+
+/-- number of rows = number of ATOM records -/
+theorem rows_count (ls : List Str) (t : List Row) (h : Model.parse ls = .ok t) :
+    t.length = (ls.filter Spec.isAtomRecord).length := by
+  rw [parse_rows] at h; exact Proofs.ParseRows.rows_count h
+
+/-- a record that is neither ATOM nor ENDMDL (HETATM, TER, ANISOU, REMARK, END, blank …), inserted anywhere,
+    changes nothing -/
+theorem other_records_ignored (pre post : List Str) (x : Str)
+    (ha : Spec.isAtomRecord x = false) (he : Spec.isEndmdl x = false) :
+    Model.parse (pre ++ x :: post) = Model.parse (pre ++ post) := by
+  rw [parse_rows, parse_rows]; exact Proofs.ParseRows.other_records_ignored pre post 0 ha he
+
+example : Spec.isAtomRecord "HETATM    3  O   HOH A   2".toList = false ∧
+    Spec.isEndmdl "HETATM    3  O   HOH A   2".toList = false := by decide
+
+/-! ### 6. what cannot be represented raises -/
+
+/-- an ATOM record longer than 80 columns anywhere in the input: no table -/
+theorem too_long_raises (ls : List Str) (l : Str) (hm : l ∈ ls) (ha : Spec.isAtomRecord l = true)
+    (hl : (Spec.recordText l).length > 80) : ∃ e, Model.parse ls = .error e := by
+  rw [parse_rows]; exact Proofs.ParseRows.too_long_raises_rows hm ha hl 0
+
+/-- an ATOM record (of at most 80 columns) one of whose numeric fields — serial, resSeq, x, y, z, or a non-blank
+    occupancy / B-factor — is rejected by `int()` / `float()`: no table -/
+theorem nonnumeric_raises (ls : List Str) (l : Str) (hm : l ∈ ls) (ha : Spec.isAtomRecord l = true)
+    (hn : Proofs.Parse.NonNumeric (Spec.pad80 (Spec.recordText l))) : ∃ e, Model.parse ls = .error e := by
+  rw [parse_rows]
+  exact Proofs.ParseRows.error_propagates hm ha
+    (fun m => Proofs.Parse.parseRecord_error_of l m (Or.inr (Or.inl hn))) 0
+
+/-- an ATOM record with blank chain (column 22) and blank segID (columns 73–76): no table -/
+theorem blank_chain_blank_seg_raises (ls : List Str) (l : Str) (hm : l ∈ ls) (ha : Spec.isAtomRecord l = true)
+    (hc : Spec.cols (Spec.pad80 (Spec.recordText l)) 22 22 = [])
+    (hs : Spec.cols (Spec.pad80 (Spec.recordText l)) 73 76 = []) : ∃ e, Model.parse ls = .error e := by
+  rw [parse_rows]
+  exact Proofs.ParseRows.error_propagates hm ha
+    (fun m => Proofs.Parse.parseRecord_error_of l m (Or.inr (Or.inr ⟨hc, hs⟩))) 0
+
+/-- a table is produced only if every ATOM record is representable, and then every row is the property's
+    reading of its own record: no shifted, partial or altered rows -/
+theorem no_silent_alteration (ls : List Str) (t : List Row) (h : Model.parse ls = .ok t) :
+    List.Forall₂ (fun p r => Spec.parseRecord p.1 p.2 = .ok r) (Proofs.ParseRows.atomsFrom ls 0) t ∧
+    ∀ l ∈ ls, Spec.isAtomRecord l = true →
+      (Spec.recordText l).length ≤ 80 ∧ ¬ Proofs.Parse.NonNumeric (Spec.pad80 (Spec.recordText l)) ∧
+      ¬ (Spec.cols (Spec.pad80 (Spec.recordText l)) 22 22 = [] ∧ Spec.cols (Spec.pad80 (Spec.recordText l)) 73 76 = []) := by
+  rw [parse_rows] at h
+  refine ⟨Proofs.ParseRows.no_silent_alteration h, ?_⟩
+  intro l hm ha
+  by_contra hbad
+  have hbad' : (Spec.recordText l).length > 80 ∨ Proofs.Parse.NonNumeric (Spec.pad80 (Spec.recordText l)) ∨
+      (Spec.cols (Spec.pad80 (Spec.recordText l)) 22 22 = [] ∧ Spec.cols (Spec.pad80 (Spec.recordText l)) 73 76 = []) := by
+    by_contra hh
+    push Not at hh
+    exact hbad ⟨by omega, hh.2.1, fun hc => hh.2.2 hc.1 hc.2⟩
+  obtain ⟨e, he⟩ := Proofs.ParseRows.error_propagates hm ha
+    (fun m => Proofs.Parse.parseRecord_error_of l m hbad') 0
+  have : Spec.parseFrom ls 0 = .ok t := h
+  rw [this] at he; cases he
+
+/-- non-vacuity: an 84-column ATOM record, a record with letters in the x field, a record with blank chain and segID -/
+example : Spec.isAtomRecord Proofs.ParseRows.Demo.long = true ∧
+    (Spec.recordText Proofs.ParseRows.Demo.long).length > 80 := by decide
+example : Proofs.Parse.NonNumeric (Spec.pad80 (Spec.recordText
+    "ATOM      1  N   MET A   1      27.3x0  24.430   2.614  1.00  9.67           N  ".toList)) :=
+  Or.inr (Or.inr (Or.inl ⟨.valueError, by decide +kernel⟩))
+example : let l := Spec.pad80 (Spec.recordText "ATOM      1  N   MET     1      27.340  24.430   2.614".toList)
+    Spec.cols l 22 22 = [] ∧ Spec.cols l 73 76 = [] := by decide +kernel
+example : ∃ t, Model.parse Proofs.ParseRows.Demo.file = .ok t := by
+  rw [parse_rows]; exact Proofs.ParseRows.Demo.file_ok
+
+/-! ### 7. the container does not matter -/
+
+/-- the lines a file object yields (`readlines`, terminators kept) and the lines of `text.split('\n')` give the
+    same table, with or without a trailing newline -/
+theorem readlines_eq_split (t : Str) : Model.parse (Model.readlines t) = Model.parse (Py.splitOn '\n' t) :=
+  Proofs.ParseRows.parse_readlines_eq_splitOn t
+
+/-- Every accepted container of the text `t` — a path string or `Path` naming a file with that content, the whole
+    text as `str` or `bytes` (accepted when it contains more than three "\nATOM "), a non-empty list / ndarray of
+    `str` / `bytes` lines with or without their terminators — gives the table of `t`; hence any two give the same. -/
+theorem container_independent (fs₁ fs₂ : Model.FS) (i₁ i₂ : Model.Input) (t : Str)
+    (h₁ : Proofs.ParseRows.Carries fs₁ i₁ t) (h₂ : Proofs.ParseRows.Carries fs₂ i₂ t) :
+    Model.readTable fs₁ i₁ = Model.readTable fs₂ i₂ ∧ Model.readTable fs₁ i₁ = Spec.parse (Py.splitOn '\n' t) := by
+  rw [Proofs.ParseRows.readTable_of_carries h₁, Proofs.ParseRows.readTable_of_carries h₂, parse_rows]
+  exact ⟨rfl, rfl⟩
+
+example : Model.readTable Proofs.ParseRows.Demo.oneFile (.path Proofs.ParseRows.Demo.path) =
+    Model.readTable Proofs.ParseRows.Demo.noFS (.listStr (Model.readlines Proofs.ParseRows.Demo.text)) :=
+  (container_independent _ _ _ _ _ Proofs.ParseRows.Demo.carries_path Proofs.ParseRows.Demo.carries_listStr).1
 
 end Props.C01
